@@ -243,3 +243,6 @@ theorem C04_routing_source_tied :
 
 /-- **C04 (tie).**  `doHarvest`: the request parameters of a harvest are built from the harvest event (run id) and the harvested application only. -/
 theorem C04_doharvest_source_tied : Gen.Skeleton.doHarvest = Reviewed.doHarvest := rfl
+
+/-- **C04 (tie).**  `harvestPayload`: the sender goroutine of one request: Execute, then - on failure only - the very container it sent goes back to the processor; nothing else touches or releases it. -/
+theorem C04_harvest_payload_source_tied : Gen.Skeleton.harvestPayload = Reviewed.harvestPayload := rfl
